@@ -6,109 +6,126 @@
    DEGREES (the code multiplies by np.deg2rad(.)), the along-track angle (VIIRS only) a rational
    multiple of y_max = arctan2(11.87/2, 824.0); all other along-track angles are 0.
 
-   Times: every arithmetic step of the code is written once, parameterised by a rounding function
-   [rnd : Q -> Q].  [rnd := id] gives the exact-rational (ideal) model about which the unbounded
-   theorems are proved; [rnd := fl] (binary64 round-to-nearest-even, below) reproduces the
-   implementation's integer nanoseconds bit for bit (checked by checks/c19.py).
+   Times: every arithmetic step of the code is written once, over an abstract arithmetic [arith].
+   [Exact] (rationals) gives the ideal model about which the unbounded theorems are proved;
+   [B64] (Coq primitive floats = IEEE binary64) reproduces the implementation's integer
+   nanoseconds bit for bit (checked by checks/c19.py); bounded theorems tie the two.
    numpy: float64 array * timedelta64(10^9,'ns') = (int64)(double)(x * 1e9), i.e. the binary64
    product truncated toward zero. *)
-From Coq Require Import List ZArith QArith Qround Bool.
+From Coq Require Import List ZArith QArith Qround Bool Floats Uint63.
 Import ListNotations.
 Open Scope Q_scope.
 
 Definition nq (n : nat) : Q := inject_Z (Z.of_nat n).
 
-(* ---------- binary64 rounding of a rational (normal range; 0 exact) ---------- *)
-Definition rne (q : Q) : Z :=
-  let f := Qfloor q in
-  match Qcompare (q - inject_Z f) (1 # 2) with
-  | Lt => f
-  | Gt => (f + 1)%Z
-  | Eq => if Z.even f then f else (f + 1)%Z
-  end.
-Definition pow2 (z : Z) : Q := Qpower 2 z.
-Definition flpos (q : Q) : Q :=
-  let k := (Z.log2 (Qnum q) - Z.log2 (Zpos (Qden q)))%Z in
-  let e := if Qle_bool (pow2 k) q then k else (k - 1)%Z in     (* 2^e <= q < 2^(e+1) *)
-  let s := (52 - e)%Z in
-  inject_Z (rne (q * pow2 s)) * pow2 (- s).
-Definition fl (q : Q) : Q :=
-  Qred (match Qnum q with
-        | Z0 => 0
-        | Zpos _ => flpos q
-        | Zneg _ => - flpos (- q)
-        end).
-Definition exact (q : Q) : Q := q.     (* the ideal "rounding" *)
+(* ---------- the arithmetic the time formulas are written over ---------- *)
+Record arith := mkArith {
+  num : Type;
+  lit : Z -> positive -> num;        (* decimal literal n/d of the source *)
+  ofZ : Z -> num;                    (* int -> float conversion *)
+  add : num -> num -> num;
+  sub : num -> num -> num;
+  mul : num -> num -> num;
+  div : num -> num -> num;
+  to_ns : num -> Z                   (* x * np.timedelta64(1000000000, "ns") as int64 *)
+}.
 
 (* C cast double -> int64: truncation toward zero *)
 Definition Qtrunc (q : Q) : Z := Z.quot (Qnum q) (Zpos (Qden q)).
 
+(* exact rationals *)
+Definition Exact : arith :=
+  mkArith Q (fun n d => n # d) inject_Z Qplus Qminus Qmult Qdiv (fun x => Qtrunc (x * 1000000000)).
+
+(* binary64: Coq's primitive floats (IEEE 754 binary64, round to nearest even).  A decimal literal
+   n/d with n, d < 2^53 is the correctly rounded quotient, which is what Python's parser yields. *)
+Definition fofZ (z : Z) : float :=
+  match z with
+  | Zneg p => PrimFloat.opp (PrimFloat.of_uint63 (Uint63.of_Z (Zpos p)))
+  | _ => PrimFloat.of_uint63 (Uint63.of_Z z)
+  end.
+Definition ftrunc (x : float) : Z :=
+  match Prim2SF x with
+  | S754_finite s m e =>
+      let v := if (0 <=? e)%Z then Z.shiftl (Zpos m) e else Z.shiftr (Zpos m) (- e) in
+      if s then (- v)%Z else v
+  | _ => 0%Z
+  end.
+Definition B64 : arith :=
+  mkArith float (fun n d => PrimFloat.div (fofZ n) (fofZ (Zpos d))) fofZ
+          PrimFloat.add PrimFloat.sub PrimFloat.mul PrimFloat.div
+          (fun x => ftrunc (PrimFloat.mul x (fofZ 1000000000))).
+
 (* ---------- instrument templates ---------- *)
 Record inst := mkInst {
-  npos : nat;                               (* number of scan positions of the full scan *)
+  npos : Z;                                 (* number of scan positions of the full scan *)
   ndet : nat;                               (* lines recorded per scan (detectors) *)
-  across : nat -> Q;                        (* position -> across-track angle, degrees *)
+  across : Z -> Q;                          (* position -> across-track angle, degrees *)
   along : nat -> Q;                         (* detector -> along-track angle, units of y_max *)
-  sample : (Q -> Q) -> nat -> nat -> Q;     (* rnd, max selected position, position -> seconds *)
-  offset : (Q -> Q) -> nat -> Q;            (* rnd, scan -> seconds *)
-  period : Q;                               (* scan period, seconds (the decimal literal) *)
+  sample : forall A : arith, Z -> Z -> num A;   (* max selected position, position -> seconds *)
+  offset : forall A : arith, nat -> num A;      (* scan -> seconds *)
+  period : Q;                               (* scan period, seconds (exact value of the source expression) *)
   swath : Q                                 (* documented across-track limit, degrees *)
 }.
 
+Definition zn (n : nat) : Z := Z.of_nat n.
+
 (* (scan_points / c - 1) * np.deg2rad(a): the coefficient of deg2rad(1) *)
-Definition ramp (c a : Q) (p : nat) : Q := (nq p / c - 1) * a.
+Definition ramp (c a : Q) (p : Z) : Q := (inject_Z p / c - 1) * a.
 (* np.linspace(a, b, len)[i] = a + i * ((b - a) / (len - 1))  (len >= 2); [a] for len = 1 *)
-Definition linspace (a b : Q) (len i : nat) : Q :=
-  if (len <=? 1)%nat then a else a + nq i * ((b - a) / nq (len - 1)).
+Definition linspace (a b : Q) (len i : Z) : Q :=
+  if (len <=? 1)%Z then a else a + inject_Z i * ((b - a) / inject_Z (len - 1)).
 
 (* avhrr(scans_nb, scan_points, scan_angle=55.37, frequency=1/6.0, apply_offset=True) *)
 Definition avhrr : inst := mkInst 2048 1
   (ramp (10235 # 10) (- (5537 # 100))) (fun _ => 0)
-  (fun rnd _ p => rnd (nq p * rnd (25 # 1000000)))
-  (fun rnd s => rnd (nq s * rnd (1 / 6)))
+  (fun A _ p => mul A (ofZ A p) (lit A 25 1000000))
+  (fun A s => mul A (ofZ A (zn s)) (div A (ofZ A 1) (ofZ A 6)))
   (1 / 6) (5537 # 100).
 
 (* avhrr_gac(scan_times:int, scan_points, scan_angle=55.37, frequency=0.5): the TypeError branch *)
 Definition avhrr_gac : inst := mkInst 2048 1
   (ramp (10235 # 10) (- (5537 # 100))) (fun _ => 0)
-  (fun rnd _ p => rnd (nq p * rnd (25 # 1000000)))
-  (fun rnd s => rnd (nq s * rnd (1 # 2)))
+  (fun A _ p => mul A (ofZ A p) (lit A 25 1000000))
+  (fun A s => mul A (ofZ A (zn s)) (lit A 5 10))
   (1 # 2) (5537 # 100).
 
-(* amsua: scan_len 30, scan_rate 8 (int), angle -48.3, sampling 0.2, sync 0.00355;
-   scan_len * 0.5 - 0.5 = 14.5 *)
+(* amsua: scan_len 30, scan_rate 8 (int: the offsets are an int64 array), angle -48.3,
+   sampling 0.2, sync 0.00355;  scan_len * 0.5 - 0.5 = 14.5 *)
 Definition amsua : inst := mkInst 30 1
   (ramp (145 # 10) (- (483 # 10))) (fun _ => 0)
-  (fun rnd _ p => rnd (rnd (nq p * rnd (2 # 10)) + rnd (355 # 100000)))
-  (fun rnd s => nq s * 8)
+  (fun A _ p => add A (mul A (ofZ A p) (lit A 2 10)) (lit A 355 100000))
+  (fun A s => ofZ A (zn s * 8))
   8 (483 # 10).
 
 (* mhs: 90, rate 8/3., angle -49.444, sampling (8/3. - 1)/90., sync 0.0 *)
 Definition mhs : inst := mkInst 90 1
   (ramp (445 # 10) (- (49444 # 1000))) (fun _ => 0)
-  (fun rnd _ p => rnd (rnd (nq p * rnd (rnd (rnd (8 / 3) - 1) / 90)) + 0))
-  (fun rnd s => rnd (nq s * rnd (8 / 3)))
+  (fun A _ p => add A (mul A (ofZ A p) (div A (sub A (div A (ofZ A 8) (ofZ A 3)) (ofZ A 1)) (ofZ A 90)))
+                      (lit A 0 1))
+  (fun A s => mul A (ofZ A (zn s)) (div A (ofZ A 8) (ofZ A 3)))
   (8 / 3) (49444 # 1000).
 
 (* hirs4: 56, rate 6.4, angle -49.5, sampling abs(rate)/56 *)
 Definition hirs4 : inst := mkInst 56 1
   (ramp (275 # 10) (- (495 # 10))) (fun _ => 0)
-  (fun rnd _ p => rnd (nq p * rnd (rnd (64 # 10) / 56)))
-  (fun rnd s => rnd (nq s * rnd (64 # 10)))
+  (fun A _ p => mul A (ofZ A p) (div A (lit A 64 10) (ofZ A 56)))
+  (fun A s => mul A (ofZ A (zn s)) (lit A 64 10))
   (64 # 10) (495 # 10).
 
 (* atms: 96, rate 8/3., linspace(-deg2rad(-52.7), deg2rad(-52.7), 96)[p], sampling 18e-3 *)
 Definition atms : inst := mkInst 96 1
   (linspace (527 # 10) (- (527 # 10)) 96) (fun _ => 0)
-  (fun rnd _ p => rnd (nq p * rnd (18 # 1000)))
-  (fun rnd s => rnd (nq s * rnd (8 / 3)))
+  (fun A _ p => mul A (ofZ A p) (lit A 18 1000))
+  (fun A s => mul A (ofZ A (zn s)) (div A (ofZ A 8) (ofZ A 3)))
   (8 / 3) (527 # 10).
 
 (* mwhs2: 98, rate 8/3., angle -53.35, sampling (8/3. - 1)/98., sync 0.0 *)
 Definition mwhs2 : inst := mkInst 98 1
   (ramp (485 # 10) (- (5335 # 100))) (fun _ => 0)
-  (fun rnd _ p => rnd (rnd (nq p * rnd (rnd (rnd (8 / 3) - 1) / 98)) + 0))
-  (fun rnd s => rnd (nq s * rnd (8 / 3)))
+  (fun A _ p => add A (mul A (ofZ A p) (div A (sub A (div A (ofZ A 8) (ofZ A 3)) (ofZ A 1)) (ofZ A 98)))
+                      (lit A 0 1))
+  (fun A s => mul A (ofZ A (zn s)) (div A (ofZ A 8) (ofZ A 3)))
   (8 / 3) (5335 # 100).
 
 (* viirs(scans_nb, scan_indices, chn_pixels=6400, scan_lines=32, scan_step=1):
@@ -116,64 +133,65 @@ Definition mwhs2 : inst := mkInst 98 1
    times p * 0.0002779947917 + repeat(arange(scans) * 1.779166667 * 1, 32) *)
 Definition viirs : inst := mkInst 6400 32
   (ramp (31995 # 10) (- (5628 # 100)))
-  (fun d => - (nq d / (155 # 10) - 1))
-  (fun rnd _ p => rnd (nq p * rnd (2779947917 # 10000000000000)))
-  (fun rnd s => rnd (rnd (nq s * rnd (1779166667 # 1000000000)) * 1))
+  (fun d => - (inject_Z (zn d) / (155 # 10) - 1))
+  (fun A _ p => mul A (ofZ A p) (lit A 2779947917 10000000000000))
+  (fun A s => mul A (mul A (ofZ A (zn s)) (lit A 1779166667 1000000000)) (ofZ A 1))
   (1779166667 # 1000000000) (5628 # 100).
 
 (* ascat: concatenate(linspace(53, 25, 21), linspace(-25, -53, 21))[p] degrees;
    sampling_interval = 3.74747474747 / float(max(scan_points) + 1) *)
 Definition ascat : inst := mkInst 42 1
-  (fun p => if (p <? 21)%nat then linspace 53 25 21 p else linspace (- (25)) (- (53)) 21 (p - 21))
+  (fun p => if (p <? 21)%Z then linspace 53 25 21 p else linspace (- (25)) (- (53)) 21 (p - 21))
   (fun _ => 0)
-  (fun rnd m p => rnd (nq p * rnd (rnd (374747474747 # 100000000000) / nq (m + 1))))
-  (fun rnd s => rnd (nq s * rnd (374747474747 # 100000000000)))
+  (fun A m p => mul A (ofZ A p) (div A (lit A 374747474747 100000000000) (ofZ A (m + 1))))
+  (fun A s => mul A (ofZ A (zn s)) (lit A 374747474747 100000000000))
   (374747474747 # 100000000000) 53.
 
 (* ---------- the geometry: map of the template over lines x selected positions ---------- *)
 Definition lines (t : inst) (n : nat) : list nat := seq 0 (n * ndet t).
 
 (* fovs: [across rows; along rows], each (lines x positions) *)
-Definition angles (t : inst) (n : nat) (ps : list nat) : list (list (list Q)) :=
+Definition angles (t : inst) (n : nat) (ps : list Z) : list (list (list Q)) :=
   [ map (fun _ => map (across t) ps) (lines t n);
     map (fun L => map (fun _ => along t (L mod ndet t)) ps) (lines t n) ].
 
-Definition time_s (rnd : Q -> Q) (t : inst) (m s p : nat) : Q :=
-  rnd (sample t rnd m p + offset t rnd s).
-(* np.array(times) * np.timedelta64(1000000000, "ns") *)
-Definition time_ns (rnd : Q -> Q) (t : inst) (m s p : nat) : Z :=
-  Qtrunc (rnd (time_s rnd t m s p * 1000000000)).
+(* times (+)= offset, then ScanGeometry: np.array(times) * np.timedelta64(1000000000, "ns") *)
+Definition time_ns (A : arith) (t : inst) (m : Z) (s : nat) (p : Z) : Z :=
+  to_ns A (add A (sample t A m p) (offset t A s)).
 
-Definition pmax (ps : list nat) : nat := list_max ps.
-Definition times (rnd : Q -> Q) (t : inst) (n : nat) (ps : list nat) : list (list Z) :=
-  map (fun L => map (time_ns rnd t (pmax ps) (L / ndet t)) ps) (lines t n).
+Definition pmax (ps : list Z) : Z := fold_right Z.max 0%Z ps.
+Definition times (A : arith) (t : inst) (n : nat) (ps : list Z) : list (list Z) :=
+  map (fun L => map (time_ns A t (pmax ps) (L / ndet t)) ps) (lines t n).
 
 (* selecting columns of a (lines x positions) array *)
-Definition select {A} (d : A) (ps : list nat) (row : list A) : list A := map (fun p => nth p row d) ps.
-Definition full (t : inst) : list nat := seq 0 (npos t).
+Definition select {X} (d : X) (ps : list Z) (row : list X) : list X :=
+  map (fun p => nth (Z.to_nat p) row d) ps.
+Definition zrange (n : Z) : list Z := map Z.of_nat (seq 0 (Z.to_nat n)).
+Definition full (t : inst) : list Z := zrange (npos t).
 
 (* OLCI / SLSTR nadir: scan_points only gives the LENGTH of the resampled swath;
    linspace(deg2rad(46.5), deg2rad(-22.1), len); times are zero *)
-Definition swath_angles (n len : nat) : list (list (list Q)) :=
-  [ map (fun _ => map (linspace (465 # 10) (- (221 # 10)) len) (seq 0 len)) (seq 0 n);
-    map (fun _ => map (fun _ => 0) (seq 0 len)) (seq 0 n) ].
-Definition swath_times (n len : nat) : list (list Z) :=
-  map (fun _ => map (fun _ => 0%Z) (seq 0 len)) (seq 0 n).
+Definition swath_angles (n : nat) (len : Z) : list (list (list Q)) :=
+  [ map (fun _ => map (linspace (465 # 10) (- (221 # 10)) len) (zrange len)) (seq 0 n);
+    map (fun _ => map (fun _ => 0) (zrange len)) (seq 0 n) ].
+Definition swath_times (n : nat) (len : Z) : list (list Z) :=
+  map (fun _ => map (fun _ => 0%Z) (zrange len)) (seq 0 n).
 
 (* ---------- evaluation with sharing (used by the correspondence run; proved equal to the
    definitions above in P_Instruments.v) ---------- *)
-Definition angles_exec (t : inst) (n : nat) (ps : list nat) : list (list (list Q)) :=
-  let row := map (fun p => Qred (across t p)) ps in
-  let arows := map (fun d => let a := Qred (along t d) in map (fun _ => a) ps) (seq 0 (ndet t)) in
+Definition angles_exec (t : inst) (n : nat) (ps : list Z) : list (list (list Q)) :=
+  let row := map (across t) ps in
+  let arows := map (fun d => let a := along t d in map (fun _ => a) ps) (seq 0 (ndet t)) in
   [ map (fun _ => row) (lines t n);
     map (fun L => nth (L mod ndet t) arows []) (lines t n) ].
-Definition times_exec (rnd : Q -> Q) (t : inst) (n : nat) (ps : list nat) : list (list Z) :=
+Definition times_exec (A : arith) (t : inst) (n : nat) (ps : list Z) : list (list Z) :=
   let m := pmax ps in
-  let rows := map (fun s => map (time_ns rnd t m s) ps) (seq 0 n) in
+  let smp := map (sample t A m) ps in
+  let rows := map (fun s => let o := offset t A s in map (fun x => to_ns A (add A x o)) smp) (seq 0 n) in
   map (fun L => nth (L / ndet t) rows []) (lines t n).
 
 (* run-length compression for printing *)
-Fixpoint rle {A} (eqb : A -> A -> bool) (l : list A) : list (nat * A) :=
+Fixpoint rle {X} (eqb : X -> X -> bool) (l : list X) : list (nat * X) :=
   match l with
   | [] => []
   | x :: t => match rle eqb t with
@@ -181,7 +199,7 @@ Fixpoint rle {A} (eqb : A -> A -> bool) (l : list A) : list (nat * A) :=
               | [] => [(1%nat, x)]
               end
   end.
-Fixpoint list_eqb {A} (eqb : A -> A -> bool) (a b : list A) : bool :=
+Fixpoint list_eqb {X} (eqb : X -> X -> bool) (a b : list X) : bool :=
   match a, b with
   | [], [] => true
   | x :: a', y :: b' => eqb x y && list_eqb eqb a' b'
@@ -195,20 +213,23 @@ Definition row_hash (r : list Z) : Z := fold_left (fun acc x => ((acc * 1000003 
    times as rle of (row length, row hash, first, last) *)
 Definition show_angles (a : list (list (list Q))) : list (list (nat * list (nat * Q))) :=
   map (fun plane => rle (list_eqb (fun x y => Nat.eqb (fst x) (fst y) && Qeqb (snd x) (snd y)))
-                        (map (rle Qeqb) plane)) a.
+                        (map (fun row => rle Qeqb (map Qred row)) plane)) a.
 Definition show_times (tm : list (list Z)) : list (nat * (nat * Z * Z * Z)) :=
-  rle (fun x y => match x, y with (a, b, c, d), (a', b', c', d') =>
-                    Nat.eqb a a' && (b =? b')%Z && (c =? c')%Z && (d =? d')%Z end)
-      (map (fun r => (length r, row_hash r, hd 0%Z r, last r 0%Z)) tm).
+  map (fun kr => let r := snd kr in (fst kr, (length r, row_hash r, hd 0%Z r, last r 0%Z)))
+      (rle (list_eqb Z.eqb) tm).
 
 (* ---------- bounded sweep of the binary64 model (theorems with the bound in the statement) ---------- *)
-Definition sweep_cell (t : inst) (m s p : nat) : bool :=
-  let a := time_ns fl t m s p in
-  let b := time_ns fl t m (S s) p in
-  (Z.abs (a - time_ns exact t m s p) <=? 1)%Z
-  && (if (p <? m)%nat then (a <? time_ns fl t m s (S p))%Z else true)
-  && (time_ns fl t m s m <? time_ns fl t m (S s) 0)%Z
-  && Qle_bool (inject_Z (b - a) - period t * 1000000000) 2
-  && Qle_bool (- (2)) (inject_Z (b - a) - period t * 1000000000).
-Definition sweep (t : inst) (maxes : list nat) (nscans : nat) : bool :=
-  forallb (fun m => forallb (fun s => forallb (fun p => sweep_cell t m s p) (seq 0 (S m))) (seq 0 nscans)) maxes.
+Definition near (a b : Z) (q : Q) (tol : Q) : bool :=
+  Qle_bool (inject_Z (b - a) - q) tol && Qle_bool (- tol) (inject_Z (b - a) - q).
+Definition period_ns (t : inst) : Q := Qred (period t * 1000000000).
+Definition sweep_cell (t : inst) (tq : Q) (m : Z) (s : nat) (p : Z) : bool :=
+  let a := time_ns B64 t m s p in
+  (Z.abs (a - time_ns Exact t m s p) <=? 1)%Z
+  && (if (p <? m)%Z then (a <? time_ns B64 t m s (p + 1))%Z else true)
+  && near a (time_ns B64 t m (S s) p) tq 2.
+Definition sweep_line (t : inst) (tq : Q) (m : Z) (zr : list Z) (s : nat) : bool :=
+  (time_ns B64 t m s m <? time_ns B64 t m (S s) 0)%Z
+  && forallb (sweep_cell t tq m s) zr.
+Definition sweep (t : inst) (maxes : list Z) (nscans : nat) : bool :=
+  let tq := period_ns t in
+  forallb (fun m => let zr := zrange (m + 1) in forallb (sweep_line t tq m zr) (seq 0 nscans)) maxes.
